@@ -42,6 +42,11 @@ def run_shard(spec, acc):
     rnd = random.Random(spec["seed"])
     for i in range(spec["n"]):
         tspec = trees.random_project(rnd, depth=rnd.choice([3, 4, 5]), imports_per_file=(1, 4), name_imports=0.2)
+        if rnd.random() < 0.4:
+            # src-layout style: names written relative to a directory between root_path and module_path
+            tops = [d for d in trees.all_dirs(tspec) if d and "/" not in d]
+            if tops:
+                acc.count("relativised_statements", trees.relativise_all(tspec, rnd.choice(tops + [""]), rnd, prob=0.8))
         one_tree(tspec, acc, rnd, sample=(i % 9 == 0))
 
 
